@@ -21,7 +21,7 @@ Spec == Init /\ [][Next]_vars
 C == FocusItems(f).items
 Ce == Foci[f].e
 Ev(e) == Eval(e, Env(BaseVars), Input)
-EvD(e, d) == Eval(e, Env([ints |-> BaseVars.ints, mixed |-> BaseVars.mixed, none |-> BaseVars.none, looks |-> BaseVars.looks, d |-> d]), Input)
+EvD(e, d) == Eval(e, Env([ints |-> BaseVars.ints, mixed |-> BaseVars.mixed, none |-> BaseVars.none, decint |-> BaseVars.decint, looks |-> BaseVars.looks, d |-> d]), Input)
 N(n) == Lit1(I(n))
 Fn0(fn) == Ev(Call(Ce, fn, <<>>))
 FnN(fn, n) == Ev(Call(Ce, fn, <<N(n)>>))
